@@ -50,9 +50,49 @@ func (c capture) Register(k ast.NodeKind, f renderer.NodeRendererFunc) { c[k] = 
 type rawBracket struct {
 	std  capture
 	wrap bool
+	drop map[ast.NodeKind]bool // node kinds whose user template is empty: they contribute nothing
+}
+
+// templateKinds says which AST node kinds are rendered through which default template (read off
+// markdown.go:renderNode / renderInlineNode; hard_break is not a node kind of its own, see markRef).
+var templateKinds = map[string][]ast.NodeKind{
+	"paragraph":      {ast.KindParagraph},
+	"heading":        {ast.KindHeading},
+	"code_block":     {ast.KindFencedCodeBlock, ast.KindCodeBlock},
+	"blockquote":     {ast.KindBlockquote},
+	"list":           {ast.KindList},
+	"list_item":      {ast.KindListItem},
+	"thematic_break": {ast.KindThematicBreak},
+	"table":          {east.KindTable},
+	"code_span":      {ast.KindCodeSpan},
+	"emphasis":       {ast.KindEmphasis},
+	"link":           {ast.KindLink},
+	"image":          {ast.KindImage},
+	"autolink":       {ast.KindAutoLink},
+	"raw_html":       {ast.KindRawHTML},
+	"strikethrough":  {east.KindStrikethrough},
+	"task_checkbox":  {east.KindTaskCheckBox},
+}
+
+func dropKinds(empty map[string]bool) map[ast.NodeKind]bool {
+	out := map[ast.NodeKind]bool{}
+	for name := range empty {
+		for _, k := range templateKinds[name] {
+			out[k] = true
+		}
+	}
+	return out
 }
 
 func (r rawBracket) RegisterFuncs(reg renderer.NodeRendererFuncRegisterer) {
+	defer func() {
+		// registered last so that they win over the bracketing functions for the same kind
+		for k := range r.drop {
+			reg.Register(k, func(w util.BufWriter, source []byte, node ast.Node, entering bool) (ast.WalkStatus, error) {
+				return ast.WalkSkipChildren, nil // nothing is written, children are not visited
+			})
+		}
+	}()
 	reg.Register(ast.KindRawHTML, func(w util.BufWriter, source []byte, node ast.Node, entering bool) (ast.WalkStatus, error) {
 		if !entering {
 			return r.std[ast.KindRawHTML](w, source, node, entering)
@@ -84,15 +124,15 @@ func refHTML(src []byte) (string, error) {
 	return b.String(), err
 }
 
-// refHTMLBracketed is refHTML with the raw HTML ranges bracketed (and inline raw HTML wrapped when
-// wrapRaw is set).
-func refHTMLBracketed(src []byte, wrapRaw bool) (string, error) {
+// refHTMLBracketed is refHTML with the raw HTML ranges bracketed (inline raw HTML wrapped when
+// wrapRaw is set) and with the nodes of the kinds in drop left out together with their content.
+func refHTMLBracketed(src []byte, wrapRaw bool, drop map[ast.NodeKind]bool) (string, error) {
 	std := capture{}
 	ghtml.NewRenderer(ghtml.WithUnsafe()).RegisterFuncs(std)
 	var b bytes.Buffer
 	err := goldmark.New(
 		goldmark.WithExtensions(extension.GFM),
-		goldmark.WithRendererOptions(ghtml.WithUnsafe(), renderer.WithNodeRenderers(util.Prioritized(rawBracket{std: std, wrap: wrapRaw}, 1))),
+		goldmark.WithRendererOptions(ghtml.WithUnsafe(), renderer.WithNodeRenderers(util.Prioritized(rawBracket{std: std, wrap: wrapRaw, drop: drop}, 1))),
 	).Convert(src, &b)
 	return b.String(), err
 }
@@ -525,7 +565,7 @@ func analyse(src []byte) facts {
 				rawText = append(rawText, v.ClosureLine.Value(src)...)
 			}
 			noteRaw(n, rawText)
-			if bytes.Count(rawText, []byte("<")) != bytes.Count(rawText, []byte(">")) {
+			if isTagSoup(rawText) {
 				// Markdown text swallowed by an HTML block (a line that consists of one tag starts
 				// one) and containing a literal <: both renderers copy the bytes, what the HTML parser
 				// makes of the tag soup depends on the white space after it, which is not compared
@@ -587,19 +627,9 @@ func analyse(src []byte) facts {
 				set("empty-destination")
 				region(fEmptyDest)
 			}
-			if t := plain(v); len(t) > 0 && (t[0] == ' ' || t[0] == '\n' || t[len(t)-1] == ' ' || t[len(t)-1] == '\n') {
-				// approximation: the first/last text of the link content is white space
-				if ft, ok := v.FirstChild().(*ast.Text); ok && len(ft.Segment.Value(src)) > 0 && (ft.Segment.Value(src)[0] == ' ' || ft.Segment.Value(src)[0] == '\n') {
-					set("link-text-padded")
-					region(fLinkTextTrim)
-				}
-				if lt, ok := v.LastChild().(*ast.Text); ok && len(lt.Segment.Value(src)) > 0 {
-					b := lt.Segment.Value(src)
-					if b[len(b)-1] == ' ' || lt.SoftLineBreak() {
-						set("link-text-padded")
-						region(fLinkTextTrim)
-					}
-				}
+			if linkNodePadded(v, src, nil) {
+				set("link-text-padded")
+				region(fLinkTextTrim)
 			}
 		case *ast.Image:
 			set("image")
@@ -610,6 +640,12 @@ func analyse(src []byte) facts {
 			textual(v.Title, "attr")
 			textual(plain(v), "attr")
 			_ = ast.Walk(v, func(c ast.Node, entering bool) (ast.WalkStatus, error) {
+				if cs, ok := c.(*ast.CodeSpan); ok && entering {
+					if b := plain(cs); entityRe.Match(b) || escapeRe.Match(b) {
+						set("image-alt-code-span-with-reference-or-escape")
+						region(fAltCodeRaw)
+					}
+				}
 				if t, ok := c.(*ast.Text); ok && entering && (t.SoftLineBreak() || t.HardLineBreak()) {
 					set("image-alt-multiline")
 					region(fAltLineBreak)
@@ -656,6 +692,122 @@ func analyse(src []byte) facts {
 		set("link-reference-definition")
 	}
 	return f
+}
+
+// linkNodePadded: does the content of this link start or end with white space (a space, or a line
+// ending: a text node may be empty and carry only the line break) once the kinds in drop are left out?
+func linkNodePadded(n ast.Node, src []byte, drop map[ast.NodeKind]bool) bool {
+	first, last := n.FirstChild(), n.LastChild()
+	for first != nil && drop[first.Kind()] {
+		first = first.NextSibling()
+	}
+	for last != nil && drop[last.Kind()] {
+		last = last.PreviousSibling()
+	}
+	if t, ok := first.(*ast.Text); ok {
+		b := t.Segment.Value(src)
+		if (len(b) > 0 && (b[0] == ' ' || b[0] == '\t' || b[0] == '\n')) || (len(b) == 0 && (t.SoftLineBreak() || t.HardLineBreak())) {
+			return true
+		}
+	}
+	if t, ok := last.(*ast.Text); ok {
+		b := t.Segment.Value(src)
+		if t.SoftLineBreak() || t.HardLineBreak() || (len(b) > 0 && (b[len(b)-1] == ' ' || b[len(b)-1] == '\t' || b[len(b)-1] == '\n')) {
+			return true
+		}
+	}
+	return false
+}
+
+// linkPadded reports whether, with the nodes of the kinds in drop left out, the content of some link
+// starts or ends with white space (the region of C20-inline-content-trim): leaving out an image at
+// the start of "[![i](/p) a](/u)" turns the link text into " a".
+func linkPadded(src []byte, drop map[ast.NodeKind]bool) bool {
+	doc := refParser().Parse(text.NewReader(src))
+	padded := false
+	_ = ast.Walk(doc, func(n ast.Node, entering bool) (ast.WalkStatus, error) {
+		if !entering {
+			return ast.WalkContinue, nil
+		}
+		if drop[n.Kind()] {
+			return ast.WalkSkipChildren, nil
+		}
+		if n.Kind() != ast.KindLink {
+			return ast.WalkContinue, nil
+		}
+		if linkNodePadded(n, src, drop) {
+			padded = true
+		}
+		return ast.WalkContinue, nil
+	})
+	return padded
+}
+
+// isTagSoup reports whether raw HTML contains a tag that is not closed before the next tag starts
+// or the text ends, or that has an odd number of quotes (which would swallow its >). Such a tag
+// extends into whatever follows the raw HTML, and what follows differs in white space between the
+// two renderers, which is not compared.
+func isTagSoup(raw []byte) bool {
+	low := bytes.ToLower(raw)
+	for i := 0; i < len(low); i++ {
+		if low[i] != '<' || i+1 >= len(low) {
+			continue
+		}
+		c := low[i+1]
+		if !(c >= 'a' && c <= 'z' || c == '/' || c == '!' || c == '?') {
+			continue // a < that the HTML tokenizer reads as text
+		}
+		if bytes.HasPrefix(low[i:], []byte("<!--")) {
+			end := bytes.Index(low[i+4:], []byte("-->"))
+			if end < 0 {
+				return true
+			}
+			i += 4 + end + 2
+			continue
+		}
+		end := bytes.IndexByte(low[i+1:], '>')
+		if end < 0 {
+			return true
+		}
+		tag := low[i+1 : i+1+end]
+		if bytes.IndexByte(tag, '<') >= 0 || bytes.Count(tag, []byte(`"`))%2 == 1 || bytes.Count(tag, []byte("'"))%2 == 1 {
+			return true
+		}
+		i += end + 1
+		for _, name := range []string{"script", "style", "textarea", "title", "xmp"} {
+			if bytes.HasPrefix(tag, []byte(name)) && (len(tag) == len(name) || tag[len(name)] == ' ' || tag[len(name)] == '\n' || tag[len(name)] == '\t') {
+				if e := bytes.Index(low[i:], []byte("</"+name)); e >= 0 {
+					i += e - 1 // the text of these elements is not markup
+				}
+			}
+		}
+	}
+	return false
+}
+
+// aKindsOf lists, in document order, which template ("link" / "autolink") produces each <a> that
+// the reference renderer writes when the nodes of the kinds in drop are left out.
+func aKindsOf(src []byte, drop map[ast.NodeKind]bool) []string {
+	var out []string
+	doc := refParser().Parse(text.NewReader(src))
+	_ = ast.Walk(doc, func(n ast.Node, entering bool) (ast.WalkStatus, error) {
+		if !entering {
+			return ast.WalkContinue, nil
+		}
+		if drop[n.Kind()] {
+			return ast.WalkSkipChildren, nil
+		}
+		switch n.Kind() {
+		case ast.KindLink:
+			out = append(out, "link")
+		case ast.KindAutoLink:
+			out = append(out, "autolink")
+		case ast.KindImage:
+			return ast.WalkSkipChildren, nil // the description is rendered as plain text
+		}
+		return ast.WalkContinue, nil
+	})
+	return out
 }
 
 // ---- override marking ---------------------------------------------------------------------
@@ -706,8 +858,8 @@ var startTagRe = regexp.MustCompile(`<(p|h[1-6]|pre|code|em|strong|br|img|ul|ol|
 // apart by the AST order aKinds) and the <code> that directly follows the renderer's own <pre>
 // (part of the code block). Marking the text rather than the parsed tree keeps the expectation
 // right when the HTML parser restructures odd raw HTML. ok is false if the <a> tags cannot be
-// attributed (never observed).
-func markRef(ref string, set map[string]bool, aKinds []string) (string, bool) {
+// attributed (never observed). With dropBr the renderer's own <br> tags are removed.
+func markRef(ref string, set map[string]bool, aKinds []string, dropBr bool) (string, bool) {
 	ai := 0
 	ok := true
 	var sb strings.Builder
@@ -735,6 +887,13 @@ func markRef(ref string, set map[string]bool, aKinds []string) (string, bool) {
 		}
 		tag := ref[m[2]:m[3]]
 		name := tagTemplate(tag)
+		if tag == "br" && dropBr {
+			// an empty hard_break template: the renderer's own <br> (a hard line break is a flag of
+			// a text node, not a node) is taken out of the expectation
+			sb.WriteString(ref[last:m[0]])
+			last = m[1]
+			continue
+		}
 		switch tag {
 		case "a":
 			if ai < len(aKinds) {
